@@ -108,6 +108,13 @@ def dictEq (a b : List (Str × Val)) : Bool :=
   a.length = b.length && a.all (fun p => PyDict.get? b p.1 = some p.2)
   && b.all (fun p => PyDict.get? a p.1 = some p.2)
 
+/-- values as the argument's type sees them: a `bool` given for an integer-typed argument is the
+    integer 1 / 0 (Python `True == 1`); everything else is itself -/
+def normDict (l : List SArg) (d : List (Str × Val)) : List (Str × Val) :=
+  d.map fun p => match l.find? (fun a => a.name = p.1) with
+    | some a => (p.1, normTy (famOf a.var.dtype) p.2)
+    | none => p
+
 /-- the call is one the property speaks about: exactly the in-arguments, each valid for its variable -/
 def validArgs (fs : Facts) (act : SAct) (args : List (Str × Val)) : Bool :=
   args.length = act.ins.length
@@ -131,11 +138,11 @@ structure CallObs where
     action error with the handler's code -/
 def callOk (fs : Facts) (act : SAct) (args : List (Str × Val)) (script : HandlerRes) (o : CallObs) : Bool :=
   if !validArgs fs act args then true else
-  (match o.seen with | some s => dictEq s args | none => false)
+  (match o.seen with | some s => dictEq s (normDict act.ins args) | none => false)
   && (match script with
       | .ret vals =>
         if !validResults fs act vals then true else
-        (match o.res with | .ok r => dictEq r vals | _ => false)
+        (match o.res with | .ok r => dictEq r (normDict act.outs vals) | _ => false)
       | .err (some c) =>
         if c = 0 then (match o.res with | .actionError _ _ => true | _ => false)
         else (match o.res with | .actionError (some c') _ => c' = c | _ => false)
@@ -170,7 +177,14 @@ def isClientError (s : Nat) : Bool := 400 ≤ s && s < 500
 def rawOk (fs : Facts) (stype : Str) (acts : List SAct) (r : Req) (script : HandlerRes)
     (seen : Option (List (Str × Val))) (o : RawObs) : Bool :=
   match o with
-  | .unhandled _ => false
+  | .unhandled _ =>
+    -- an exception may escape only when the *handler* broke its contract on a request that reached it
+    (match script, handlerInput fs acts r with
+     | .ret vals, some (n, _) =>
+       (match acts.find? (fun a => a.name = n) with
+        | some act => !validResults fs act vals
+        | none => false)
+     | _, _ => false)
   | .resp status fault rets =>
     if invalidReq fs acts r then
       isClientError status || (status = 500 && fault.isSome)
@@ -181,7 +195,7 @@ def rawOk (fs : Facts) (stype : Str) (acts : List SAct) (r : Req) (script : Hand
         && (match script with
             | .ret vals =>
               if !validResults fs act vals then true else
-              status = 200 && (match rets with | some rv => dictEq rv vals | none => false)
+              status = 200 && (match rets with | some rv => dictEq rv (normDict act.outs vals) | none => false)
             | .err (some c) =>
               status = 500 && (if c = 0 then fault.isSome else fault = some (some c))
             | .err none => status = 500 && fault.isSome)
